@@ -182,25 +182,28 @@ theorem c05_ss2022_client_rejects_requests (C : Crypto) (ctx : Ctx) (env : DecEn
   have hn : 0 < ctx.kind.n := kind_n_pos ctx.kind
   have hat : AuthAt (newAuth C ctx.kind ctx.key (b.take ctx.kind.n)) 0 := by unfold AuthAt newAuth; split <;> rfl
   have halg : (newAuth C ctx.kind ctx.key (b.take ctx.kind.n)).alg = ctx.kind.alg := by unfold newAuth; split <;> rfl
+  have hreq : requireEih ctx d.sess = false := by simp [requireEih, hm]
   unfold init2022 at h
   have hns : ¬ d.sess.mode = Mode.server := by rw [hm]; decide
-  simp only [hns, false_and, if_false] at h
+  simp only [hns, hreq, if_false, Bool.false_eq_true] at h
+  by_cases h1 : b.length < ctx.kind.n
+  · rw [if_pos h1] at h; cases h
+  rw [if_neg h1] at h
+  by_cases h2 : b.length < ctx.kind.n + (0 + 1 + 8 + ctx.kind.n + 2 + 16)
+  · rw [if_pos h2] at h; cases h
+  rw [if_neg h2] at h
+  by_cases h3 : env.saltSeen (b.take ctx.kind.n) = true
+  · rw [if_pos h3] at h; cases h
+  rw [if_neg h3] at h
+  simp only [init2022Key, hreq, Bool.false_eq_true, if_false, List.drop_zero] at h
+  rw [openB_at C _ 0 hat, halg] at h
   split at h
   · cases h
-  · split at h
-    · cases h
-    · rename_i hlen
-      split at h
-      · cases h
-      · simp only [List.drop_zero] at h
-        rw [openB_at C _ 0 hat, halg] at h
-        split at h
-        · cases h
-        · rename_i hh a' heq
-          have hx := congrArg Prod.fst heq
-          simp only at hx
-          have := hnf _ _ hx
-          simp only [List.length_take, List.length_drop] at this
-          omega
+  · rename_i hh a' heq
+    have hx := congrArg Prod.fst heq
+    simp only at hx
+    have := hnf _ _ hx
+    simp only [List.length_take, List.length_drop] at this
+    omega
 
 end Octo.Ss
